@@ -368,6 +368,46 @@ Definition hmtx_lsb_ix (n m gid : Z) : option (option (Z * Z)) :=
   Some (if gid <? n then Some (0, gid)
         else let j := sat_u 64 (gid - n) in if j <? m then Some (1, j) else None).
 
+(* read-fonts collections/int_set/sparse_bit_set.rs decode_sparse_bit_set_nodes (the IFT codepoint-set
+   decoder): arithmetic of an all-zero ("filled") node.  nstart = next.start (u64), node_size = BF^exp (u64).
+   None = trap, Some None = the node is skipped, Some (Some (start, end)) = inserted range. *)
+Definition sbs_fill_range (nstart node_size bias maxv : Z) : option (option (Z * Z)) :=
+  (* u32::try_from(next.start).ok().and_then(|s| s.checked_add(bias)).filter(|s| *s <= max_value) *)
+  if (nstart <=? 4294967295) && (nstart + bias <=? 4294967295) && (nstart + bias <=? maxv) then
+    (* u32::try_from(next.start + node_size - 1).unwrap_or(u32::MAX).saturating_add(bias).min(max_value) *)
+    do t <- addu64 nstart node_size ;;
+    do t <- subu64 t 1 ;;
+    let e := if t <=? 4294967295 then t else 4294967295 in
+    Some (Some (nstart + bias, Z.min (sat_u 32 (e + bias)) maxv))
+  else Some None.
+(* walking down to the node: start_delta = bit_index as u64 * BF^(height - depth); start += start_delta *)
+Fixpoint sbs_path (bf height depth start : Z) (path : list Z) : option (Z * Z) :=
+  match path with
+  | [] => Some (start, depth)
+  | i :: r =>
+      do e <- chk_u 32 (height - depth) ;;
+      do sz <- chk_u 64 (bf ^ e) ;;
+      do d <- chk_u 64 (i * sz) ;;
+      do s <- addu64 start d ;;
+      do dp <- chk_u 32 (depth + 1) ;;
+      sbs_path bf height dp s r
+  end.
+(* a filled node reached through the child indices [path] in a tree of the given branch factor / height *)
+Definition sbs_filled_node (bf height bias maxv : Z) (path : list Z) : option (option (Z * Z)) :=
+  match sbs_path bf height 1 0 path with
+  | None => None
+  | Some (start, depth) =>
+      do e <- chk_u 32 (height - depth) ;;
+      do e <- chk_u 32 (e + 1) ;;
+      do sz <- chk_u 64 (bf ^ e) ;;
+      sbs_fill_range start sz bias maxv
+  end.
+(* a leaf value: u32::try_from(next.start)?.checked_add(bit_index)?.checked_add(bias)? <= max_value *)
+Definition sbs_leaf_value (nstart bit_index bias maxv : Z) : option (option Z) :=
+  Some (if (nstart <=? 4294967295) && (nstart + bit_index <=? 4294967295)
+           && (nstart + bit_index + bias <=? 4294967295) && (nstart + bit_index + bias <=? maxv)
+        then Some (nstart + bit_index + bias) else None).
+
 (* ---- correspondence case format (harness/src/bin/c20.rs): (op, args, result);
         result [] = the real function panicked, [v..] = returned value(s) ---- *)
 Definition o1 (r : option Z) : list Z := match r with Some v => [v] | None => [] end.
@@ -437,6 +477,10 @@ Definition eval_op (op : Z) (args : list Z) : list Z :=
           [match a with Some k => k | None => -1 end;
            match l with Some (0, k) => k | Some (_, j) => 1000 + j | None => -1 end]
       | _, _ => []
+      end
+  | 54, bf :: height :: bias :: maxv :: path =>   (* decoded set of a stream whose only non-empty branch ends in a filled node *)
+      match sbs_filled_node bf height bias maxv path with
+      | None => [] | Some None => [-1] | Some (Some (a, b)) => [a; b]
       end
   | 33, [a; b] => o1 (fx_add_assign 32 a b)         (* Fixed += / F26Dot6 += *)
   | 34, [a; b] => o1 (fx_sub_assign 32 a b)
